@@ -96,7 +96,13 @@ fn touch_library(r: &mut Rng, l: &StandardLibrary) -> String {
     for (k, f) in l.globals.iter() {
         let path: Vec<String> = k.split('.').map(|s| if s == "*" { "w".to_string() } else { s.to_string() }).collect();
         let p = path.join(".");
-        match r.below(5) {
+        match r.below(7) {
+            5 | 6 => {
+                // arguments of every literal kind: each parameter's declared type gets compared and, on a
+                // mismatch, printed
+                let args: Vec<&str> = (0..r.range(0, 4)).map(|_| *r.pick(&["\"red\"", "'count'", "[[x]]", "1", "nil", "true", "{}", "function() end", "...", "x", "-x", "(\"a b\")", "#x"])).collect();
+                out.push_str(&format!("{p}({})\n", args.join(", ")));
+            }
             0 => out.push_str(&format!("{p}(1, x)\n")),
             1 => out.push_str(&format!("print({p})\n")),
             2 => out.push_str(&format!("{p}.q = 1\n")),
